@@ -19,8 +19,8 @@ RULE = (
     "four maps are held, (b) a fit class supplying its own (scaled) noise map and another model is evaluated completely, (c) "
     "a fit on another mask of the same shape is evaluated, the held maps must still hold fit 1's values and share no memory "
     "with the later fits' maps, (d) one noise value of the dataset is edited in place through the structure's __setitem__ "
-    "and a new fit on the same dataset must follow the edited noise map; plain cases run the history in both modes for "
-    "both menus at one (rotating) sky level, inversion cases once per formalism (slim for mapping, mask-in-fit for "
+    "and a new fit on the same dataset must follow the edited noise map; plain cases run steps a-c in one mode and step d in "
+    "the other for the first menu and swapped for the second, at one (rotating) sky level, inversion cases once per formalism (slim for mapping, mask-in-fit for "
     "w-tilde; steps b+c or d rotating); tiny-coefficient lists = a mapper with Constant(coefficient 3e-5 / 5e-5) alone and "
     "next to normally regularized / unregularized objects on every 8th mask (quick) / every mask (thorough); "
     "non-trivial = plain: the mask has masked pixels; inversion: the list has >= 2 objects or is partially unregularized"
@@ -649,7 +649,10 @@ def run_plain(aa, v, case):
             flags.add("snr-clipped")
         if (d[u] == mod[u]).any():
             flags.add("zero-residual")
-        hist = {"sky": SKIES[(bits + h) % 3], "salt": bits + w, "slim": ("own", "edit"), "mask-in-fit": ("own", "edit")}
+        # the two menus of a mask together cover {slim, mask-in-fit} x {own noise map + held maps, in-place edit}
+        swap = (bits + MENUS.index(menu)) % 2 == 1
+        hist = {"sky": SKIES[(bits + h) % 3], "salt": bits + w,
+                "slim": ("edit",) if swap else ("own",), "mask-in-fit": ("own",) if swap else ("edit",)}
         run_fits(v, aa, mask, m, d, mod, s, "menu=%s" % menu, hist=hist)
     v.outcome = "plain:n%d:%s" % (int(u.sum()), "+".join(sorted(flags)))
 
